@@ -36,6 +36,7 @@ type Scenario struct {
 	Second  bool          `json:"second"` // attempt a second writer on the locked directory
 	Ids     []string      `json:"ids"`
 	NoClose bool          `json:"no_close"`
+	Free      bool        `json:"free"` // free-running: gates never block, goroutines run in parallel; events are ordered by their sequence numbers
 	MergeWindow int       `json:"merge_window"` // hold a merge in flight until this many batches landed in its window
 	RootObs   bool        `json:"root_obs"` // observe a fresh reader after every root replacement
 	CloseLast bool        `json:"close_last"` // Close is called only when nothing else can run (background work completes)
@@ -255,7 +256,7 @@ func Run(t *testing.T, scn Scenario, sched Scheduler, workDir string, uidBase *i
 		}
 	}()
 	synctest.Test(t, func(t *testing.T) {
-		c = ctl.New(true)
+		c = ctl.New(!scn.Free)
 		opts := scn.Opts
 		s := ctl.NewSys(c, opts)
 		var imgMu sync.Mutex
@@ -452,6 +453,16 @@ func Run(t *testing.T, scn Scenario, sched Scheduler, workDir string, uidBase *i
 				}
 			}
 			gs := c.Parked()
+			if scn.Free && len(gs) == 0 {
+				// nothing is gated: Wait() returned because everything finished or is durably blocked
+				select {
+				case <-allDone:
+				default:
+					res.Stuck = true
+					c.Log("Stuck", "why", "free-running: blocked with work outstanding")
+				}
+				break
+			}
 			if len(gs) == 0 {
 				select {
 				case <-allDone:
